@@ -4,13 +4,13 @@ Export ListNotations.
 
 Inductive pname := PVar (id : N) | POptional | PRest | PKey | PAux | PAllow.
 Record docarg := { d_name : pname; d_def : option Z }.      (* literal integer defaults only *)
-Inductive arg := AInt (z : Z) | AKw (id : N).                (* :name where name is variable id *)
+Inductive arg := AInt (z : Z) | AKw (id : N) | ANil.         (* :name where name is variable id; nil *)
 Inductive value := VInt (z : Z) | VKw (id : N) | VList (l : list arg) | VNil | VUnbound.
 
 Inductive kind := KTooFew | KTooMany | KBadKey | KFault.
 Inductive outcome := OBound (b : list (N * value)) | OErr (k : kind).
 
-Definition arg_val (a : arg) : value := match a with AInt z => VInt z | AKw k => VKw k end.
+Definition arg_val (a : arg) : value := match a with AInt z => VInt z | AKw k => VKw k | ANil => VNil end.
 Definition def_val (d : option Z) : value := match d with Some z => VInt z | None => VNil end.
 
 (* scope: later Let of the same name overwrites *)
@@ -42,7 +42,7 @@ Fixpoint key_loop (fuel : nat) (args : list arg) (b : list (N * value)) : list (
       | [] => inl b
       | AKw k :: [] => inr KFault                      (* panic("Missing value for key") : a Go panic *)
       | AKw k :: v :: args' => key_loop f args' (bind b k (arg_val v))
-      | AInt _ :: _ => inr KBadKey                     (* TypePanic: keyword to function *)
+      | (AInt _ | ANil) :: _ => inr KBadKey            (* TypePanic: keyword to function *)
       end
   end.
 
